@@ -13,7 +13,7 @@ import ast
 from lin import Lin, _L
 from absval import IntVal, PtrVal, CondVal, State, Obj, NULL, TOP
 from absint import Interp
-from irlib import AnalysisBroken
+from irlib import AnalysisBroken, tyname
 
 
 class StructSpec:
@@ -129,7 +129,10 @@ def entails_text(st, env, text):
 
 class FnSpec:
     def __init__(self, pre=(), extents=None, post=(), structs=None, ret_signed=None,
-                 check_inv=True, nonnull=True, cstr=None, notes=None, frame=None):
+                 check_inv=True, nonnull=True, cstr=None, notes=None, frame=None, ctor=False,
+                 dtor=False):
+        self.ctor = ctor
+        self.dtor = dtor
         self.pre = list(pre)
         self.extents = extents or {}    # pointer param -> byte extent expr
         self.post = list(post)          # list of dict(name=, when=[...], then=[...])
@@ -198,7 +201,7 @@ class ContractRun:
         nstruct = 0
         for p in fn.params:
             ty = p['ty']
-            if ty['k'] == 'ptr' and ty['elem'].lstrip('%') in self.struct_specs:
+            if ty['k'] == 'ptr' and tyname(ty['elem']) in self.struct_specs:
                 nstruct += 1
         dit = fn.d.get('ditypes') or []
         # map IR params to DI params (skip sret)
@@ -213,22 +216,21 @@ class ContractRun:
                 continue
             dip = di_params[di_idx] if di_idx < len(di_params) else None
             di_idx += 1
-            sname = ty.get('elem', '').lstrip('%') if ty['k'] == 'ptr' else None
+            sname = tyname(ty.get('elem', '')) if ty['k'] == 'ptr' else None
             sspec = None
             if spec.structs and name in spec.structs:
                 sspec = spec.structs[name]
-                sname = sspec.name
             elif sname in self.struct_specs:
                 sspec = self.struct_specs[sname]
             if sspec is not None:
                 o, fs = self.make_struct_obj(st, env, name, sname, sspec, nstruct > 1)
                 args.append(PtrVal(o.id))
-                struct_params.append((name, o, sspec, fs))
+                struct_params.append((name, o, sspec, fs, sname))
             elif ty['k'] == 'ptr':
                 ext = spec.extents.get(name)
                 o = st.new_obj('param', None, name, {'desc': 'buffer %s' % name})
                 args.append(PtrVal(o.id))
-                struct_params.append((name, o, None, {'__ext__': ext}))
+                struct_params.append((name, o, None, {'__ext__': ext}, None))
             elif ty['k'] == 'int':
                 if ty['bits'] == 1:
                     args.append(CondVal('unknown'))
@@ -240,13 +242,13 @@ class ContractRun:
             else:
                 args.append(interp.top_of_type(st, ty, name))
         # extents of plain pointer params (may mention scalar params)
-        for (name, o, sspec, fs) in struct_params:
+        for (name, o, sspec, fs, sname) in struct_params:
             if sspec is None and fs.get('__ext__'):
                 o.size = env.lin(ast.parse(fs['__ext__'], mode='eval'))
         # assume invariants and preconditions
         states = [st]
-        for (name, o, sspec, fs) in struct_params:
-            if sspec is None:
+        for (name, o, sspec, fs, sname) in struct_params:
+            if sspec is None or (spec.ctor and name == 'this'):
                 continue
             senv = self.scoped_env(env, name, fs)
             for t in sspec.inv:
@@ -262,13 +264,33 @@ class ContractRun:
         if not states:
             raise AnalysisBroken('contract of %s is unsatisfiable' % fname)
         total_rets = 0
-        for s0 in states:
-            interp.stack = [(fn.name, 'entry')]
-            rets = interp.run_function(fn, s0, list(args))
-            interp.stack = []
-            total_rets += len(rets)
-            for (T, rv) in rets:
-                self.check_return(fn, spec, env, struct_params, T, rv)
+        # postcondition cases whose premises mention only entry values are
+        # analysed as separate runs with the premise assumed on entry
+        # (case split on the precondition); the others are checked on the
+        # returns of the unconditional run
+        split = [pc for pc in spec.post if pc.get('when') and
+                 not any(('_post' in w or 'ret' in w.replace('return', '')) for w in pc['when'])]
+        rest = [pc for pc in spec.post if pc not in split]
+        runs = [(None, rest)] + [(pc, [dict(pc, when=[])]) for pc in split]
+        for (case, posts) in runs:
+            cstates = [s.fork() for s in states]
+            if case is not None:
+                for w in case['when']:
+                    nxt = []
+                    for s in cstates:
+                        nxt.extend(assume_text(s, env, w))
+                    cstates = nxt
+                if not cstates:
+                    self.record(fn, 'post', case['name'], True, None, vacuous=True)
+                    continue
+            for s0 in cstates:
+                interp.stack = [(fn.name, 'entry')]
+                rets = interp.run_function(fn, s0, list(args))
+                interp.stack = []
+                if case is None:
+                    total_rets += len(rets)
+                for (T, rv) in rets:
+                    self.check_return(fn, spec, env, struct_params, T, rv, posts)
         if total_rets == 0:
             self.results.append((fname, 'returns', 'function has a feasible return', False,
                                  'no return reachable under the contract'))
@@ -286,15 +308,15 @@ class ContractRun:
                 e.bind(n + '_post', l)
         return e
 
-    def check_return(self, fn, spec, env, struct_params, T, rv):
+    def check_return(self, fn, spec, env, struct_params, T, rv, posts=None):
         interp = self.interp
         e = Env()
         e.names = dict(env.names)
         multi = sum(1 for x in struct_params if x[2] is not None) > 1
-        for (name, o, sspec, fs) in struct_params:
+        for (name, o, sspec, fs, sname) in struct_params:
             if sspec is None:
                 continue
-            stl, members = self.struct_fields(sspec.name)
+            stl, members = self.struct_fields(sname)
             post = {}
             for m in members:
                 if m['name'] not in fs:
@@ -309,7 +331,7 @@ class ContractRun:
                 e.bind('%s.%s_post' % (name, n), l)
                 if not multi:
                     e.bind(n + '_post', l)
-            if spec.check_inv:
+            if spec.check_inv and not spec.dtor:
                 penv = Env()
                 penv.names = dict(env.names)
                 for n, l in post.items():
@@ -326,6 +348,35 @@ class ContractRun:
                             t, sspec.name, fn.name,
                             interp.explain(T, [x for x in post.values() if x is not None]))
                     self.record(fn, 'invariant', '%s: %s' % (sspec.name, t), ok, detail)
+                for fname_, ext in sspec.owns.items():
+                    m = [m for m in members if m['name'] == fname_]
+                    if not m:
+                        continue
+                    m = m[0]
+                    v = T.mem.get((o.id, m['off'], m['ty']['size']))
+                    ok = False
+                    detail = None
+                    try:
+                        want = penv.lin(ast.parse(ext, mode='eval'))
+                        if isinstance(v, PtrVal) and v.is_null:
+                            ok = T.cons.entails_le(want, 0)
+                            detail = None if ok else 'field %s is null while the invariant says it owns %s bytes' % (fname_, ext)
+                        elif isinstance(v, PtrVal):
+                            ob = T.objs.get(v.obj)
+                            if ob is not None and ob.size is not None:
+                                ok = T.cons.entails_le(want, ob.size - v.off) and T.cons.entails_le(0, v.off)
+                                if not ok:
+                                    detail = ('field %s points to %s of %r bytes (offset %r) but the invariant '
+                                              'requires it to own "%s" = %r bytes at return of %s%s' % (
+                                                  fname_, interp.describe_obj(T, v.obj), ob.size, v.off, ext, want,
+                                                  fn.name, interp.explain(T, [want, ob.size])))
+                            else:
+                                detail = 'extent of the block stored in %s is unknown at return' % fname_
+                        else:
+                            detail = 'field %s clobbered at return' % fname_
+                    except KeyError as ex:
+                        detail = 'ownership expression not expressible: %s' % ex
+                    self.record(fn, 'ownership', '%s: %s owns %s' % (sspec.name, fname_, ext), ok, detail)
         if isinstance(rv, IntVal):
             dit = fn.d.get('ditypes') or []
             signed = bool(dit) and dit[0].get('signed') == 1
@@ -336,7 +387,7 @@ class ContractRun:
         elif isinstance(rv, CondVal):
             d = interp.decide(T, rv)
             e.bind('ret', Lin(1 if d else 0) if d is not None else None)
-        for pc in spec.post:
+        for pc in (spec.post if posts is None else posts):
             Ts = [T.fork()]
             vac = False
             try:
